@@ -23,6 +23,7 @@ INVS = ['NoRaise', 'BoundedCache', 'NoDuplicates', 'CacheNotFromFuture']
 PROPS = ['ServedCurrent', 'GoneIsGone']
 BASE = 1700000000
 PROJ = ('p1', 'p2', 'p3')
+INCLUDES = ('p1', 'p2')          # the projects whose configuration includes shared/base.yaml
 SIZE = 2
 
 
@@ -32,8 +33,11 @@ class World(object):
         from webtest import TestApp
         self.dir = tempfile.mkdtemp(prefix='verif-multiapp-')
         self.clock = 1
+        self.hw = {f: 0 for f in PROJ + ('base',)}
+        os.mkdir(os.path.join(self.dir, 'shared'))
+        self._write_base(0, 0)
         for p in PROJ:
-            self._write(p, 0)
+            self._write(p, 0, 0)
         self.mm = MultiMapProxy(DirectoryConfLoader(self.dir), list_apps=True, app_cache_size=SIZE)
         self.app = TestApp(self.mm)
 
@@ -43,40 +47,66 @@ class World(object):
     def file(self, p):
         return os.path.join(self.dir, p + '.yaml')
 
-    def _write(self, p, t):
+    def base_file(self):
+        return os.path.join(self.dir, 'shared', 'base.yaml')
+
+    def _put(self, path, conf, m):
         import yaml
-        conf = {'services': {'wms': {'md': {'title': 'version-%d' % t}}}, 'layers': [{'name': 'lay', 'title': 'lay', 'sources': ['s']}],
-                'sources': {'s': {'type': 'debug'}},
-                'globals': {'cache': {'base_dir': os.path.join(self.dir, 'cache_' + p)}}}
-        tmp = self.file(p) + '.tmp'
+        tmp = path + '.tmp'
         with open(tmp, 'w') as f:
             yaml.safe_dump(conf, f)
-        os.utime(tmp, (BASE + t, BASE + t))
-        os.rename(tmp, self.file(p))
+        os.utime(tmp, (BASE + m, BASE + m))
+        os.rename(tmp, path)
+
+    def _write(self, p, ver, m):
+        """version `ver` of the configuration of p, with the time stamp m (not necessarily the time of writing)"""
+        conf = {'services': {'wms': {'md': {'title': 'version-%d' % ver}}},
+                'globals': {'cache': {'base_dir': os.path.join(self.dir, 'cache_' + p)}}}
+        if p in INCLUDES:
+            conf['base'] = 'shared/base.yaml'
+        else:
+            conf.update({'layers': [{'name': 'lay', 'title': 'lay', 'sources': ['s']}], 'sources': {'s': {'type': 'debug'}}})
+        self._put(self.file(p), conf, m)
+
+    def _write_base(self, ver, m):
+        self._put(self.base_file(), {'services': {'wms': {'md': {'abstract': 'base-%d' % ver}}},
+                                     'layers': [{'name': 'lay', 'title': 'lay', 'sources': ['s']}], 'sources': {'s': {'type': 'debug'}}}, m)
 
     def lru(self):
         out = []
         for k in self.mm.apps.last_used:
             app, stamps = self.mm.apps.values[k]
             ts = [v for f, v in stamps.items() if f == self.file(k)]
-            out.append([k, int(round(ts[0] - BASE)) if ts else -1])
+            bs = [v for f, v in stamps.items() if os.path.abspath(f) == os.path.abspath(self.base_file())]
+            out.append([k, int(round(ts[0] - BASE)) if ts else -1, int(round(bs[0] - BASE)) if bs else 0])
         return out
 
-    def do(self, op, p):
+    def do(self, op, p, m=None):
         import re
-        ev = {'op': op, 'p': p, 'status': 0, 'ver': 0}
+        ev = {'op': op, 'p': p, 'status': 0, 'ver': 0, 'bver': 0}
         if op == 'request':
             try:
                 r = self.app.get('/%s/service?SERVICE=WMS&REQUEST=GetCapabilities&VERSION=1.1.1' % p, status='*')
                 ev['status'] = r.status_int
                 if r.status_int == 200:
-                    m = re.search(r'<Title>version-(\d+)</Title>', r.text)
-                    ev['ver'] = int(m.group(1)) if m else -1
+                    mm = re.search(r'<Title>version-(\d+)</Title>', r.text)
+                    ev['ver'] = int(mm.group(1)) if mm else -1
+                    mb = re.search(r'<Abstract>base-(\d+)</Abstract>', r.text)
+                    ev['bver'] = int(mb.group(1)) if mb else (-1 if p in INCLUDES else 0)
             except Exception as ex:
                 ev['status'] = 999
                 ev['raised'] = '%s: %s' % (type(ex).__name__, ex)
-        elif op == 'write':
-            self._write(p, self.clock)
+        elif op in ('write', 'writebase'):
+            f = p if op == 'write' else 'base'
+            m = self.clock if m is None else m
+            if m not in (self.clock, self.hw[f] + 1):
+                raise tlc.MachineryError('time stamp %r outside the stamps of the model' % m)
+            if op == 'write':
+                self._write(p, self.clock, m)
+            else:
+                self._write_base(self.clock, m)
+            self.hw[f] = m
+            ev['m'] = m
             self.clock += 1
         elif op == 'remove':
             os.remove(self.file(p))
@@ -85,7 +115,7 @@ class World(object):
         return ev
 
 
-OPS = {'Request': 'request', 'WriteConf': 'write', 'RemoveConf': 'remove'}
+OPS = {'Request': 'request', 'WriteConf': 'write', 'RemoveConf': 'remove', 'WriteBase': 'writebase', 'WriteConfAny': 'write', 'WriteBaseAny': 'writebase'}
 
 
 def replay_behaviour(beh, lenient=False):
@@ -95,13 +125,19 @@ def replay_behaviour(beh, lenient=False):
         for act, st in beh[1:]:
             name, args = parse_action(act)
             n += 1
-            ev = w.do(OPS[name], args[0])
+            if name in ('WriteBase', 'WriteBaseAny'):
+                ev = w.do('writebase', 'base', int(st['base']['mtime']) if st else (args[0] if args else None))
+            elif name in ('WriteConf', 'WriteConfAny'):
+                ev = w.do('write', args[0], int(st['files'][args[0]]['mtime']) if st else (args[1] if len(args) > 1 else None))
+            else:
+                ev = w.do(OPS[name], args[0])
             if name == 'Request' and st:
-                want = (int(st['last']['status']), int(st['last']['ver']))
-                if (ev['status'], ev['ver']) != want:
-                    return 'diverged', 'step %d %s: spec answers %s, real %s %s' % (n, act, want, (ev['status'], ev['ver']), ev.get('raised', '')), ev
+                want = (int(st['last']['status']), int(st['last']['ver']), int(st['last']['bver']))
+                if (ev['status'], ev['ver'], ev['bver']) != want:
+                    return 'diverged', 'step %d %s: spec answers (status, version of the project file, of the base file) %s, real %s %s' % (
+                        n, act, want, (ev['status'], ev['ver'], ev['bver']), ev.get('raised', '')), ev
             if st:
-                spec = [[str(e['proj']), int(e['mtime'])] for e in st['lru']]
+                spec = [[str(e['proj']), int(e['mtime']), int(e['bmtime'])] for e in st['lru']]
                 if ev['lru'] != spec:
                     return 'diverged', 'step %d %s: spec cache %s, real %s' % (n, act, spec, ev['lru']), ev
         return 'ok', '', None
@@ -117,10 +153,12 @@ def random_history(rng, n):
             k = rng.random()
             p = rng.choice(PROJ)
             exists = os.path.exists(w.file(p))
-            if k < 0.6:
+            if k < 0.55:
                 evs.append(w.do('request', p))
-            elif k < 0.85 or not exists:
-                evs.append(w.do('write', p))
+            elif k < 0.7:
+                evs.append(w.do('writebase', 'base', rng.choice([w.clock, w.hw['base'] + 1])))
+            elif k < 0.88 or not exists:
+                evs.append(w.do('write', p, rng.choice([w.clock, w.hw[p] + 1])))
             else:
                 evs.append(w.do('remove', p))
         return evs
@@ -144,7 +182,7 @@ def run(ctx):
     tlc.sany(SPEC)
     variant, ev = detect_variant()
     ctx.log('the tree implements Removed=%s (%s)' % (variant, ev.get('raised') or ev['status']))
-    base = dict(Proj=set(PROJ), Size=SIZE, MaxClock=5 if thorough else 4)
+    base = dict(Proj=set(PROJ), Size=SIZE, MaxClock=5 if thorough else 4, Includes=set(INCLUDES))
     # the as-found variant violates NoRaise: reproduce the counterexample
     d = ctx.sub('mc-asfound')
     mp, cp = tlc.write_mc(d, 'MultiApp', 'MC_MA', dict(base, Removed='asfound'), invariants=['NoRaise'], constraint='Bounded')
@@ -169,7 +207,7 @@ def run(ctx):
         raise tlc.MachineryError('MultiApp.tla: %r %s' % (r, r.out[-800:]))
     else:
         ctx.add_tlc('MultiApp', r)
-        for a in ('Request', 'WriteConf', 'RemoveConf'):
+        for a in ('Request', 'WriteConfAny', 'RemoveConf', 'WriteBaseAny'):
             if r.coverage.get(a, (0, 0))[0] == 0:
                 raise tlc.MachineryError('vacuity: %s never taken' % a)
     # spec -> code
@@ -222,7 +260,8 @@ def run(ctx):
     ctx.log('replayed %d behaviours, validated %d histories' % (k, len(traces)))
     ctx.sample({'kind': 'recorded history', 'events': traces[0][:8]})
     ctx.assumptions += ['sequential requests (the LRU dictionary is read outside the lock: concurrent requests are not covered); one '
-                        'configuration file per project (no base files); every file change gets a new time stamp']
+                        'configuration file per project, two of the three projects include one shared base file; a file change carries the time of writing or the '
+                        'oldest stamp that is still newer than every stamp the path has had (a stamp that is not newer cannot be noticed by the reload rule)']
     return ctx.finish('model_checking', 'TLC: all histories of requests / writes / removals for 3 projects, cache size 2, bounded clock; '
                       'behaviours executed on and histories recorded from a real MultiMapProxy')
 
